@@ -1153,6 +1153,20 @@ func families(tier string) []fw.Family {
 		fs = append(fs, family(fmt.Sprintf("histories of length %d over %d calls x 4 option sets", d, len(full)), full, d, allOpts))
 	}
 	fs = append(fs, longDocs(full))
+	// fonts across pages: longer histories over the texts and NewPage only (what a writer remembers
+	// about a font - object numbers, resource names, subsets - per document or per page)
+	var fontAlpha []action
+	for _, k := range []string{"NewPage(50,20.5)", "Text(DejaVuSerif,\"Hi\")", "Text(DejaVuSerif,ascii95", "Text(EBGaramond,\"Hi\")"} {
+		for _, a := range full {
+			if strings.HasPrefix(a.name, k) {
+				fontAlpha = append(fontAlpha, a)
+				break
+			}
+		}
+	}
+	for _, d := range []int{4, 5} {
+		fs = append(fs, family(fmt.Sprintf("histories of length %d over {NewPage, 3 texts in 2 fonts}, SubsetFonts=true x Compress on/off", d), fontAlpha, d, allOpts[:2]))
+	}
 	if tier != "thorough" {
 		// quick: length 3 over the full alphabet with subsetted fonts, over the reduced alphabet with full fonts
 		red := reducedAlphabet(full)
